@@ -153,6 +153,24 @@ def run_case(case, stats):
                 rels[id(node)] = res
                 check_locked(res, index, what)
                 stats.c["calls_checked"] += 1
+                # transfer to the relation's own engine: original content, same engine
+                try:
+                    same = res.transferred_to(res.engine)
+                except Exception as e:
+                    raise Violation("self-transfer-raised", f"transferred_to(own engine) raised {type(e).__name__}: {e}; relation {str(res)[:200]}", sig=exc_sig(e))
+                if same is not res:
+                    if same.engine is not res.engine:
+                        raise Violation("transfer-wrong-engine", f"transferred_to(own engine) returned a relation in {same.engine}; relation {str(res)[:200]}")
+                    truth = memo[id(node)]
+                    try:
+                        got = execute_processed(env, make_processor(env).process(same))
+                    except Exception:
+                        got = None
+                    if got is not None:
+                        bad = compare(truth, got)
+                        if bad:
+                            raise Violation("transfer-changed-content", f"transferred_to(own engine): {bad}; result {str(same)[:200]}; relation {str(res)[:200]}")
+                    stats.c["self-transfer:new-object"] += 1
                 if node[0] == "mat":
                     src = peel_same_engine_markers(ops[0])
                     if isinstance(src, (LeafRelation, Materialization)) and count_mats(res) != count_mats(ops[0]):
